@@ -34,7 +34,7 @@ META = {
         "correspondence harness. Not covered: `strictly_dominates` module-level wrappers' ValueError paths "
         "(exercised by the harness only)."),
 }
-COQ_TARGETS = ["C24/Enc.vo", "Props/C24.vo"]
+COQ_TARGETS = ["C24/Enc.vo", "C24/ProofsDom.vo", "C24/ProofsPO.vo", "Props/C24.vo"]
 REQ = ["C24.Model", "C24.Enc"]
 ASSUMPTIONS = ["successors of a block's last operation are blocks of the same region (IR well-formedness, C01)"]
 
